@@ -58,9 +58,41 @@ func (f *Frame) opaqueInt(x ssa.Value) AInt {
 
 func nonNeg(a Aff) bool { lo, _ := a.interval(); return lo >= 0 }
 
+// nonNegHere: a >= 0 by its range or by the facts in force at this program point.
+func (f *Frame) nonNegHere(a Aff) bool {
+	if nonNeg(a) {
+		return true
+	}
+	st := f.state()
+	return len(st) > 0 && st.entails(atomGE(a, affConst(0)))
+}
+
+// settle drops the wrap conditions of a value that the facts in force here already
+// prove; facts about SSA values persist to every later use.
+func (f *Frame) settle(ai AInt) AInt {
+	if len(ai.conds) == 0 {
+		return ai
+	}
+	st := f.state()
+	if len(st) == 0 {
+		return ai
+	}
+	for _, c := range ai.conds {
+		if !st.entails(atomGE(c.a, affConst(c.lo))) || !st.entails(atomLE(c.a, affConst(c.hi))) {
+			return ai
+		}
+	}
+	return AInt{a: ai.a}
+}
+
 func (f *Frame) divSym(a Aff, c int64) *Sym {
-	_, hi := a.interval()
-	s := f.an.u.sym(fmt.Sprintf("(%s)/%d", a.String(), c), 0, hi/c)
+	lo, hi := a.interval()
+	if lo < 0 {
+		lo = floorDiv(lo, c)
+	} else {
+		lo = 0
+	}
+	s := f.an.u.sym(fmt.Sprintf("(%s)/%d", a.String(), c), lo, floorDiv(hi, c))
 	s.kind, s.arg, s.c = symDiv, &a, c
 	return s
 }
@@ -116,6 +148,7 @@ func (f *Frame) binop(x *ssa.BinOp) AV {
 		}
 		return f.an.u.symbolic(f.key+x.Name(), x.Type())
 	}
+	ax, ay = f.settle(ax), f.settle(ay)
 	inherit := append(append([]wrapCond(nil), ax.conds...), ay.conds...)
 	what := fmt.Sprintf("%s %s %s", x.X.Name(), x.Op, x.Y.Name())
 	if e := f.an.ctx.exprAt(x.Pos(), f.fn); e != "" {
@@ -145,18 +178,18 @@ func (f *Frame) binop(x *ssa.BinOp) AV {
 			return r
 		}
 	case token.QUO:
-		if yConst && cy > 0 && len(inherit) == 0 && nonNeg(ax.a) {
+		if yConst && cy > 0 && len(inherit) == 0 && f.nonNegHere(ax.a) {
 			if cy == 1 {
 				return ax
 			}
 			return AInt{a: affSym(f.divSym(ax.a, cy))}
 		}
 	case token.REM:
-		if yConst && cy > 0 && len(inherit) == 0 && nonNeg(ax.a) {
+		if yConst && cy > 0 && len(inherit) == 0 && f.nonNegHere(ax.a) {
 			return AInt{a: f.modAff(ax.a, cy)}
 		}
 	case token.SHR:
-		if yConst && cy >= 0 && cy < 40 && len(inherit) == 0 && nonNeg(ax.a) {
+		if yConst && cy >= 0 && cy < 40 && len(inherit) == 0 && f.nonNegHere(ax.a) {
 			return AInt{a: affSym(f.divSym(ax.a, 1<<uint(cy)))}
 		}
 	case token.AND:
